@@ -3,6 +3,7 @@
 //! returns a field map `[(offset, len, name)]` for the structure-aware mutator of C14.
 
 pub mod cpc;
+pub mod cpc_tables;
 pub mod hll;
 pub mod small;
 pub mod tdigest;
